@@ -37,7 +37,7 @@ theorem addImportsDecls_fold {nss ns} : ∀ {ds : List Decl} {I},
       cases addImport nss I ns t with
       | error e => rfl
       | ok I' => exact addImportsDecls_fold
-    | type _ | «alias» _ _ | route _ | annot _ | annotType _ | patch _ =>
+    | type _ | «alias» _ _ | route _ | annot _ _ | annotType _ | patch _ | aliasAnnots _ _ =>
       simp only [addImportsDecls, List.map_cons, List.filterMap_cons, importOf]
       exact addImportsDecls_fold
 
